@@ -83,7 +83,8 @@ def op_chains(rng, q, focus):
                 bound = lambda: None if rng.random() < 0.35 else rng.randint(-n - 3, n + 3)   # noqa: E731
                 ops.append(("SLS", bound(), bound(), rng.choice([None, 1, 2, 3, -1, -1, -2, -3, n, -n])))
             else:
-                ops.append(("ADD", rng.choice(["left", "right"]), rng.choice(["str", "Seq", "SeqRecord", "CircularRecord", "slice"])))
+                ops.append(("ADD", rng.choice(["left", "right"]), rng.choice(["str", "Seq", "SeqRecord", "CircularRecord", "slice", "empty-str", "empty-SeqRecord",
+                                                                              "MutableSeq", "int", "None", "list", "bytes", "self"])))
         out.append((rec, ops))
     return out
 
@@ -103,7 +104,7 @@ def exhaustive_small(rng, focus):
                 for b in range(-n - 1, n + 2):
                     ops.append(("SL", a, b))
             for side in ("left", "right"):
-                for what in ("str", "Seq", "SeqRecord", "CircularRecord", "slice"):
+                for what in ("str", "Seq", "SeqRecord", "CircularRecord", "slice", "empty-str", "empty-SeqRecord", "MutableSeq", "int", "None", "list", "bytes", "self"):
                     ops.append(("ADD", side, what))
         else:
             for k in range(-2 * n, 2 * n + 1):
